@@ -95,20 +95,24 @@ YieldSteps(g) ==
   \/ /\ pc[g] = "Y5" /\ Unlock(g, g, "Y6")
   \/ /\ pc[g] = "Y6" /\ Unlock(g, tgt[g], "send")
 
-(* ---- Thread.end ---- *)
+(* ---- Thread.end ----
+   The pending __close handlers run first (E4), while the thread is still "running" and holds no mutex, so a
+   handler may call coroutine functions on its own coroutine (they fail with "cannot ... running thread");
+   only then are the mutexes taken, the thread marked dead, its memory released and control handed back. *)
 EndSteps(g) ==
-  \/ /\ pc[g] = "E1" /\ Lock(g, g, "E2")
+  \/ /\ pc[g] = "E1"            \* cleanupCloseStack: runs Lua handlers, no mutex held
+     /\ \/ Goto(g, "E2a") /\ UNCHANGED <<tgt, status, caller, mux, exc, tok, ops>>
+        \/ (HandlerOps /\ Goto(g, "H1") /\ UNCHANGED <<tgt, status, caller, mux, exc, tok, ops>>)
+  \/ /\ pc[g] = "H1" /\ Lock(g, g, "H2")      \* the handler calls coroutine.resume/close on its own coroutine: R1/C1 lock t.mux
+  \/ /\ pc[g] = "H2" /\ Unlock(g, g, "E2a")   \* status is not suspended: unlock, error returned to the handler
+  \/ /\ pc[g] = "E2a" /\ Lock(g, g, "E2")
   \/ /\ pc[g] = "E2" /\ Lock(g, caller[g], "E3")
   \/ /\ pc[g] = "E3"
      /\ status' = [status EXCEPT ![g] = "dead"]
      /\ tgt' = [tgt EXCEPT ![g] = caller[g]]
      /\ caller' = [caller EXCEPT ![g] = 0]
      /\ exc' = [exc EXCEPT ![caller[g]] = FALSE]
-     /\ Goto(g, "E4") /\ UNCHANGED <<mux, tok, ops>>
-  \/ /\ pc[g] = "E4"            \* cleanupCloseStack: runs Lua handlers while both mutexes are held
-     /\ \/ Goto(g, IF ReleaseEarly THEN "E6" ELSE "E5send") /\ UNCHANGED <<tgt, status, caller, mux, exc, tok, ops>>
-        \/ (HandlerOps /\ Goto(g, "H1") /\ UNCHANGED <<tgt, status, caller, mux, exc, tok, ops>>)
-  \/ /\ pc[g] = "H1" /\ Lock(g, g, "H2")   \* the handler calls coroutine.resume/close on its own coroutine: R1/C1 lock t.mux
+     /\ Goto(g, IF ReleaseEarly THEN "E6" ELSE "E5send") /\ UNCHANGED <<mux, tok, ops>>
   \/ /\ pc[g] = "E6"            \* ReleaseBytes(2 KiB): touches the context manager
      /\ Goto(g, IF ReleaseEarly THEN "E5send" ELSE "E7") /\ UNCHANGED <<tgt, status, caller, mux, exc, tok, ops>>
   \/ /\ pc[g] = "E7" /\ Unlock(g, tgt[g], "E8")
@@ -136,7 +140,7 @@ Spec == Init /\ [][Next]_vars
 
 -----------------------------------------------------------------------------
 (* Lua code runs, and the context manager / runtime state is touched, at these labels *)
-Touches(g) == pc[g] \in {"run", "E4", "E6", "H1"}
+Touches(g) == pc[g] \in {"run", "E1", "E6", "H1", "H2"}
 AccessOwnership == \A g \in T : Touches(g) => tok = g
 OneRunner == Cardinality({g \in T : Touches(g)}) <= 1
 StatusLegal ==
